@@ -61,6 +61,18 @@ CHECKS = {
              'including commits, undos and reopen after the pack.',
         note='history level (bytes of the pack in C08/C09 machinery); pack times at second boundaries; blobs in C13',
         design='6/C07'),
+    'C14': dict(
+        technique='TLA+ spec ZGraph (persistence by reachability, persistent_id reference formats, referencesf/get_refs case '
+                  'analysis, pack-gc and export as consumers) model-checked by TLC; all small graphs and simulated mutation '
+                  'programs replayed on real connections',
+        text='TLC checks RoundTrip, ExtractExact, StoredIffReachableOrAdded, NoDangling, PackKeepsReachable exhaustively and '
+             'enumerates all small graphs / simulates mutation programs; each is built from real classes (plain, __getnewargs__, '
+             'missing), committed on Mapping/FileStorage in a 2-database multi-database with 6 oid byte patterns (incl. all-ASCII), '
+             'loaded in another connection; every raw record is decoded without ZODB.serialize and referencesf/get_refs are '
+             'compared with the reference sets TLC printed.',
+        note='pickle byte level not modelled; import judged on ordinary-reference exports only; the weak-adds deviation is the '
+             'named constant WeakAdds; F20 (placeholder newargs lost on ghostification) known finding',
+        design='6/C14'),
     'C18': dict(
         technique='TLA+ spec ZRepozo (transcription of do_backup/find_files/scandat/delete_old_backups, derived recover/verify '
                   'tables) model-checked by TLC; the whole dumped state graph replayed on a real FileStorage + real repozo calls',
